@@ -374,7 +374,7 @@ def execute_graph(w, graph_index, is_async, spec, model, scripts, budgets, probe
 
 
 def run(w) -> None:
-    n = 4000 if w.tier == "thorough" else 360
+    n = 20000 if w.tier == "thorough" else 1500
     for i in range(n):
         if i % w.nshards != w.shard:
             continue
